@@ -8,6 +8,10 @@ from .values import *
 from .state import PathEnd, RaisedEx
 
 
+class UnboundLocalInHint(Exception):
+    """A hint mentions a local that is not bound on this path: the hint does not apply there."""
+
+
 _MUT_CACHE = {}
 
 
@@ -68,6 +72,8 @@ class ExprMixin:
             return GlobalRef("builtins." + name)
         if name in R.SPEC:
             return R.SPEC[name]
+        if st.spec_mode and name.startswith("L_") and getattr(self, "_strict_locals", False):
+            raise UnboundLocalInHint(name)
         if st.spec_mode and name.startswith("L_"):
             # a local that is not bound on this path: unconstrained (clauses guard its use by the path's own condition)
             return ZV(L.fresh("unbound_" + name), None)
